@@ -18,10 +18,12 @@ package main
 //     orphans;
 //   - satisfied: every rule has exactly Count peers, none with a mismatching role, no orphan.
 //
-// Where the documentation is silent or leaves a choice (letter case of keys and values, a label
-// whose value is empty, a store without one of the location labels) the model evaluates the
-// primitive predicates under every combination of the plausible readings and refuses to judge the
-// case unless all of them agree ("skipped_ambiguous").
+// pd's conventions for labels are mirrored (independently computed): keys are looked up ignoring
+// letter case, an empty value means "label not set", location values compare ignoring letter case
+// and an unset location label is "same place as anyone", constraint values compare exactly.
+// Where the documentation leaves a choice (letter case of exclusive label keys, an exclusive key with
+// an empty value) the model evaluates the primitive predicates under every combination of the
+// plausible readings and refuses to judge the case unless all of them agree ("skipped_ambiguous").
 
 import (
 	"strings"
@@ -39,6 +41,10 @@ type reading struct {
 	vfLoc      bool // location values compare ignoring letter case
 	missSame   bool // a store without a location label is "at the same place" as any other at that level
 }
+
+// docReading: pd's documented conventions; the three exclusive-label aspects are the values the
+// enumeration in newModel starts from.
+var docReading = reading{kfLookup: true, eaLookup: true, vfCons: false, vfLoc: true, missSame: true}
 
 func eq(a, b string, fold bool) bool {
 	if fold {
@@ -214,12 +220,20 @@ func newModel(c *Case) (m *model, skip string) {
 			return nil, "count-below-1"
 		}
 	}
-	// which aspects can matter at all
-	caseHaz, emptyHaz, missHaz := false, false, false
+	// Fixed by pd's documented conventions (mirrored here, computed independently):
+	//   - a label is looked up by key ignoring letter case (StoreInfo.GetLabelValue);
+	//   - a label whose value is empty does not exist (GetLabelValue returns "", MergeLabels drops it);
+	//   - location values are compared ignoring letter case, and a store without the label is at the
+	//     same place as any other store at that level (StoreInfo.CompareLocation);
+	//   - constraint values are compared exactly ('in' / 'notIn' list the values literally).
+	// Left open (judged only if all readings agree): whether the legacy exclusive keys and the
+	// "named in the constraints" test ignore letter case, and whether an exclusive key with an empty
+	// value still makes the store exclusive.
+	caseHaz, emptyHaz := false, false
 	for _, s := range c.Stores {
 		keys := map[string]bool{}
 		for _, l := range s.Labels {
-			if hasUpper(l.K) || hasUpper(l.V) {
+			if hasUpper(l.K) {
 				caseHaz = true
 			}
 			if l.V == "" {
@@ -232,49 +246,24 @@ func newModel(c *Case) (m *model, skip string) {
 			keys[lk] = true
 		}
 	}
-	plain := reading{}
 	for _, r := range c.Rules {
 		for _, x := range r.Cons {
 			if hasUpper(x.Key) {
 				caseHaz = true
 			}
-			for _, v := range x.Values {
-				if hasUpper(v) {
-					caseHaz = true
-				}
-			}
 		}
-		for _, k := range r.Loc {
-			if hasUpper(k) {
-				caseHaz = true
-			}
-			for j := 0; j < m.n; j++ {
-				if _, ok := lookup(m.st[j], k, plain); !ok {
-					missHaz = true
-				}
-			}
-		}
-	}
-	if caseHaz || emptyHaz {
-		missHaz = true
 	}
 	var bits []func(rd *reading, v bool)
 	if caseHaz {
-		bits = append(bits,
-			func(rd *reading, v bool) { rd.kfLookup = v }, func(rd *reading, v bool) { rd.kfExclName = v },
-			func(rd *reading, v bool) { rd.kfExclSpec = v }, func(rd *reading, v bool) { rd.vfCons = v },
-			func(rd *reading, v bool) { rd.vfLoc = v })
+		bits = append(bits, func(rd *reading, v bool) { rd.kfExclName = v }, func(rd *reading, v bool) { rd.kfExclSpec = v })
 	}
 	if emptyHaz {
-		bits = append(bits, func(rd *reading, v bool) { rd.eaLookup = v }, func(rd *reading, v bool) { rd.eaExcl = v })
-	}
-	if missHaz {
-		bits = append(bits, func(rd *reading, v bool) { rd.missSame = v })
+		bits = append(bits, func(rd *reading, v bool) { rd.eaExcl = v })
 	}
 	for mask := 0; mask < 1<<uint(len(bits)); mask++ {
-		rd := reading{kfLookup: true, kfExclName: true, kfExclSpec: true, eaLookup: true, eaExcl: true, vfCons: true, vfLoc: true, missSame: true}
+		rd := docReading
 		for b, set := range bits {
-			set(&rd, mask&(1<<uint(b)) == 0)
+			set(&rd, mask&(1<<uint(b)) != 0)
 		}
 		p, ex := computePrims(m, rd)
 		if mask == 0 {
@@ -290,13 +279,11 @@ func newModel(c *Case) (m *model, skip string) {
 		} else {
 			switch {
 			case caseHaz && emptyHaz:
-				return nil, "letter-case+empty-label-value"
+				return nil, "exclusive-label-key-letter-case+empty-value"
 			case caseHaz:
-				return nil, "letter-case"
-			case emptyHaz:
-				return nil, "empty-label-value"
+				return nil, "exclusive-label-key-letter-case"
 			default:
-				return nil, "store-without-location-label"
+				return nil, "exclusive-label-with-empty-value"
 			}
 		}
 	}
